@@ -141,14 +141,7 @@ func (ff *factFlow) analyse(fn *ssa.Function, entry factSet, res func(ssa.Value)
 			if bt, isB := ph.Type().Underlying().(*types.Basic); !isB || bt.Kind() != types.Bool || len(phiBit) >= 8 {
 				continue
 			}
-			for _, e := range ph.Edges {
-				if k, isK := e.(*ssa.Const); isK {
-					if _, isB := boolConst(k); isB {
-						phiBit[ph] = uint(factPhiShift + 2*len(phiBit))
-						break
-					}
-				}
-			}
+			phiBit[ph] = uint(factPhiShift + 2*len(phiBit))
 		}
 	}
 	tagPhis := func(sc, pred *ssa.BasicBlock, ev factSet) factSet {
@@ -250,7 +243,36 @@ func (ff *factFlow) analyse(fn *ssa.Function, entry factSet, res func(ssa.Value)
 	}
 	cameFrom := map[after][]uint{}
 	// edgeVec: the vectors on the edge leaving block b through successor succ, for vector f
+	var edgeVec0 func(b *ssa.BasicBlock, f uint, succ int) factSet
+	// edgeVec: as edgeVec0, and a vector that leaves a test of a boolean variable (phi) remembers
+	// which way it went, so that a later test of the same variable goes the same way
 	edgeVec := func(b *ssa.BasicBlock, f uint, succ int) factSet {
+		out := edgeVec0(b, f, succ)
+		iff, ok := b.Instrs[len(b.Instrs)-1].(*ssa.If)
+		if !ok {
+			return out
+		}
+		cond, neg := stripNot(iff.Cond)
+		ph, isPhi := cond.(*ssa.Phi)
+		if !isPhi {
+			return out
+		}
+		sh, tracked := phiBit[ph]
+		if !tracked {
+			return out
+		}
+		pol := (succ == 0) != neg
+		set := uint(2) << sh
+		if pol {
+			set = uint(1) << sh
+		}
+		marked := factSet{}
+		for v := range out {
+			marked[(v&^(3<<sh))|set] = true
+		}
+		return marked
+	}
+	edgeVec0 = func(b *ssa.BasicBlock, f uint, succ int) factSet {
 		out := factSet{}
 		iff, ok := b.Instrs[len(b.Instrs)-1].(*ssa.If)
 		if !ok {
@@ -259,6 +281,14 @@ func (ff *factFlow) analyse(fn *ssa.Function, entry factSet, res func(ssa.Value)
 		}
 		cond, neg := stripNot(iff.Cond)
 		pol := (succ == 0) != neg
+		// a variable already tested on this path (or entered with a constant)
+		if ph, isPhi := cond.(*ssa.Phi); isPhi {
+			if sh, tracked := phiBit[ph]; tracked {
+				if f&(1<<sh) != 0 && !pol || f&(2<<sh) != 0 && pol {
+					return out
+				}
+			}
+		}
 		if ph, isPhi := cond.(*ssa.Phi); isPhi && ph.Block() == b {
 			tag := int(f & factTagMask >> factTagShift)
 			f &^= factTagMask
